@@ -162,7 +162,7 @@ def dag_arg(nodes):
 
 
 def check_dag(ctx, nodes, tag, flagsets=('000', '111')):
-    inp = {'family': tag, 'dag': [list(n) for n in nodes] if len(nodes) <= 64 else f'{tag} ({len(nodes)} nodes)'}
+    inp = {'family': tag, 'dag': [list(n) for n in nodes] if len(nodes) <= 300 else f'{len(nodes)} nodes: regenerate from the family name {tag}'}
     arg = dag_arg(nodes)
     reqs = [f'costorder {arg}'] + [f'costboc {arg} {fl}' for fl in flagsets]
     ans = ctx.model.run(reqs)
@@ -190,6 +190,9 @@ def check_dag(ctx, nodes, tag, flagsets=('000', '111')):
     st = steps_w + postlen
     m = metered('order', st, lambda: root.order())
     if not judge(ctx, 'order', st, m, inp, 'Cell.order'):
+        return
+    if m.exc is not None or m.result is None:
+        ctx.fail('order:raised', f'Cell.order raised {type(m.exc).__name__} on a valid DAG', inp, repr(m.exc), 'an order')
         return
     got = '.'.join(str(idx[c.hash]) for c in m.result)
     if got != post:
@@ -223,7 +226,7 @@ def check_boc_batch(ctx, items, inp_extra=None):
     out = []
     for (tag, bs), a in zip(items, answers):
         total = int(a.split()[1])
-        inp = {'boc': bs.hex() if len(bs) <= 600 else f'{len(bs)} bytes: {tag}', 'tag': tag, **(inp_extra or {})}
+        inp = {'boc': bs.hex() if len(bs) <= 20000 else f'{len(bs)} bytes: {tag}', 'tag': tag, **(inp_extra or {})}
         m = metered('fromboc', total, lambda: Cell.from_boc(bs))
         ctx.count('fromboc:' + ('ok' if m.exc is None and not m.aborted else 'raises'))
         ctx.count('fromboc-family:' + tag.split('/')[0])
@@ -387,7 +390,7 @@ def check_dict(ctx, nodes, key_len, tag):
     ncalls = int(calls.split('.')[1])
     if ncalls > 2 * tsize:
         ctx.corr_broken(f'dict model: calls {ncalls} > 2*treeSize {2 * tsize} on {tag} (contradicts c19_dict_parse)')
-    inp = {'dict': [list(n) for n in nodes] if len(nodes) <= 40 else f'{tag}: {len(nodes)} cells', 'key_len': key_len, 'tag': tag}
+    inp = {'dict': [list(n) for n in nodes], 'key_len': key_len, 'tag': tag}
     try:
         cells = dd_build(nodes)
     except Exception as e:
@@ -583,7 +586,7 @@ def check_tl(ctx, env, items, tag, f16_fixed=True):
         if f[0] == 'guard' and not f16_fixed:
             ctx.count('tl:skipped-vector-guard-input(F16 unrepaired)')
             continue
-        inp = {'tl': bs.hex() if len(bs) <= 600 else f'{len(bs)} bytes', 'mode': mode or 'boxed', 'tag': tag}
+        inp = {'tl': bs.hex(), 'mode': mode or 'boxed', 'tag': tag}
         if mode is None:
             fn = lambda: env.schemas.deserialize(bs)
         else:
